@@ -27,7 +27,8 @@ RULE = (
     "settings, query vector)."
 )
 ASSUMPTIONS = [
-    "sizes are integer points in 5..500 (the documented type of row_height/col_width is int)",
+    "sizes are integer points in 5..500 (the documented type of row_height/col_width is int) and larger than the whole-point border "
+    "allowance of their row/column: a size equal to it leaves the line no content height, is stored as 0, and 0 means 'default' in the file format",
     "border strokes are drawn before sizes are set: a border change after an explicit size resets the reported size in the open "
     "document (observation outside C16, which is about save/reopen)",
 ]
@@ -188,7 +189,7 @@ def check_fixture_edit(ctx, case):
         shutil.rmtree(tmp, ignore_errors=True)
 
 
-size_sets = st.lists(st.tuples(st.integers(0, 5), st.sampled_from(["row", "col"]), st.floats(0, 0.999), st.integers(5, 500)).map(list), min_size=1, max_size=5)
+size_sets = st.lists(st.tuples(st.integers(0, 5), st.sampled_from(["row", "col"]), st.floats(0, 0.999), st.integers(30, 500)).map(list), min_size=1, max_size=5)
 
 
 def has_borders(doc):
@@ -320,8 +321,9 @@ def specs(draw):
                 r, c = draw(st.integers(0, rows - 1)), draw(st.integers(0, cols - 1))
                 length = draw(st.integers(1, (cols - c) if side in ("top", "bottom") else (rows - r)))
                 borders.append([r, c, side, draw(st.sampled_from([0.25, 0.5, 1.0, 2.0, 3.0, 8.0])), length])
-        rh = [[r, draw(st.integers(5, 500))] for r in sorted(draw(st.sets(st.integers(0, rows - 1), max_size=4)))]
-        cw = [[c, draw(st.integers(5, 500))] for c in sorted(draw(st.sets(st.integers(0, cols - 1), max_size=3)))]
+        lo = 10 if with_borders else 5   # a size must exceed the whole-point border allowance of its line (at most 8 here)
+        rh = [[r, draw(st.integers(lo, 500))] for r in sorted(draw(st.sets(st.integers(0, rows - 1), max_size=4)))]
+        cw = [[c, draw(st.integers(lo, 500))] for c in sorted(draw(st.sets(st.integers(0, cols - 1), max_size=3)))]
         ts = {"name": f"T{i}" if draw(st.booleans()) else draw(st.sampled_from(["Table A", "Übersicht", "x y", "Q3 \"plan\""])) + str(i),
               "rows": rows, "cols": cols, "hr": hr, "hc": hc, "borders": borders, "row_heights": rh, "col_widths": cw,
               "caption": draw(st.none() | st.text(max_size=15)), "caption_enabled": draw(st.none() | st.booleans()),
